@@ -59,10 +59,25 @@ static int entry_anchor(const char * s, size_t len, int k) {
 	return -1;
 }
 
-#ifdef SINK_NUM_GHOST
-extern unsigned long g_sink_num[]; extern size_t g_sink_nnum;
-#endif
 #ifdef GROW
+/* the -DGROW unit does not look at the text: DString by no-op contract stubs; the one formatted number this function prints -- the
+ * entry id in "<li id=\"fn:%d\">" -- is recorded in emission order (formatting digits is libc's job) */
+#include <stdarg.h>
+unsigned long g_sink_num[8]; size_t g_sink_nnum;
+DString * d_string_new(const char * s) { DString * d = ALLOC(sizeof(DString)); d->str = ALLOC(8); d->str[0] = 0; d->currentStringLength = 0; d->currentStringBufferSize = 8; return d; }
+void d_string_append(DString * d, const char * s) { }
+void d_string_append_c(DString * d, char c) { }
+void d_string_append_c_array(DString * d, const char * s, size_t n) { }
+void d_string_append_printf(DString * d, const char * fmt, ...) {
+	if (fmt[0] == '<' && fmt[1] == 'l' && fmt[2] == 'i' && fmt[3] == ' ' && fmt[4] == 'i' && fmt[5] == 'd') {
+		va_list ap; va_start(ap, fmt); int v = va_arg(ap, int); va_end(ap);
+		ASSERT(g_sink_nnum < 8, "ghost: number list (harness bound) not exceeded");
+		if (g_sink_nnum < 8) { g_sink_num[g_sink_nnum++] = (unsigned long)v; }
+	}
+}
+#define SINK_NUM_GHOST 1
+/* stack_push by contract (C18): the growth path (realloc) is not needed below the starting capacity and is intractable for CBMC under a symbolic size */
+void stack_push(stack * s, void * element) { ASSERT(s->size < (size_t)s->capacity, "ghost: no growth needed in this unit"); s->element[s->size++] = element; }
 /* -DGROW: the note content is rendered BY CONTRACT -- mmd_export_token_tree_html (same file; body removed from the compiled repo object, see
  * drop_bodies) may mark one more note as used while a note is being printed (a footnote referenced from inside a footnote: the
  * PAIR_BRACKET_FOOTNOTE arm calls footnote_from_bracket -> mark_footnote_as_used -> stack_push(used_footnotes)).  The list must still
@@ -90,6 +105,15 @@ void h_footnote_list(void) {
 		f->content = NULL; f->label = NULL; f->label_text = NULL; f->clean_text = NULL; f->free_para = false;
 		stack_push(scratch->used_footnotes, f); f->count = scratch->used_footnotes->size;      /* as mark_footnote_as_used leaves it */
 	}
+#ifdef GROW
+	/* slots above the current size hold valid (unused) notes, so that symbolic execution of the loop body under an infeasible guard
+	 * (i >= size) does not walk through uninitialised pointers */
+	for (int i = NNOTES; i < NNOTES + GROW + 2; i++) {
+		footnote * f = ALLOC(sizeof(footnote));
+		f->content = NULL; f->label = NULL; f->label_text = NULL; f->clean_text = NULL; f->free_para = false; f->count = 0;
+		scratch->used_footnotes->element[i] = f;
+	}
+#endif
 	DString * out = d_string_new("");
 	char * source = ALLOC(1); source[0] = 0;
 #ifdef SINK_NUM_GHOST
